@@ -107,7 +107,8 @@ func (t *template) layout(ctx context.Context, w io.Writer) error {
 	maxDepth := 100
 	depth := 0
 	var inheritedSlotScope *SlotScope // Slots defined in child templates (as DOM nodes)
-	visited := map[string]bool{filename: true} // Files of the chain so far: naming one again is a cycle
+	// Files of the chain so far: naming one of them again is a cycle
+	visited := map[string]bool{filename: true}
 
 	// Build layout chain and render intermediate templates
 	for {
